@@ -21,7 +21,9 @@ from pathlib import Path
 VERIF = Path(__file__).resolve().parent.parent
 LEAN_DIR = VERIF / "lean" / "QVerif"
 DRIVER = LEAN_DIR / ".lake" / "build" / "bin" / "driver"
-EVIDENCE = VERIF / "evidence"
+# evidence/<id>.json is rewritten by every run; tools that run checks against deliberately broken trees (seed evaluation)
+# redirect it so that the committed evidence always describes the unchanged tree
+EVIDENCE = Path(os.environ.get("VERIF_EVIDENCE_DIR") or (VERIF / "evidence"))
 REPLAYS = VERIF / "replays"
 CORPUS = VERIF / "corpus"
 KNOWN = VERIF / "known_findings.json"
